@@ -13,6 +13,7 @@ import (
 	"strings"
 	"testing"
 	"testing/synctest"
+	"time"
 
 	"github.com/pion/turn/v5/verif/rep"
 	"github.com/pion/turn/v5/verif/shim/vsched"
@@ -51,12 +52,111 @@ func (c *ctr) Read(p []byte) (int, error) {
 }
 
 type item struct {
-	prefix []int
-	cost   int
-	free   int
-	depth  int  // number of deviations from the default schedule
-	shared bool // executed by every shard (levels above the split depth)
-	expect [][]string // enabled labels of the parent's steps before the deviation
+	Prefix []int      `json:"p"`
+	Cost   int        `json:"c"`
+	Free   int        `json:"f"`
+	Depth  int        `json:"d"` // number of deviations from the default schedule
+	Shared bool       `json:"s"` // executed by every shard (levels above the split depth)
+	Expect [][]string `json:"e"` // enabled labels of the parent's steps before the deviation
+}
+
+// Work stealing between shard processes through the file system: an idle
+// shard announces itself with idle.<i>; a busy shard claims the announcement
+// (rename) and hands over the older half of its stack as work.<i>.json.
+type stealer struct {
+	dir            string
+	shard, nshards int
+	execs          int
+	takes, gives   int
+	waited         time.Duration
+}
+
+func newStealer(name string, mapDesc bool) *stealer {
+	shard, n := rep.Shard()
+	if n <= 1 || rep.ReplayPath() != "" {
+		return nil
+	}
+	base := os.Getenv("VERIF_WORK")
+	if base == "" {
+		base = ".work"
+	}
+	d := fmt.Sprintf("%s/steal/%s-%s-%v", base, rep.Part(), name, mapDesc)
+	_ = os.MkdirAll(d, 0o755)
+
+	return &stealer{dir: d, shard: shard, nshards: n}
+}
+
+// give hands over half of the stack if somebody is idle.
+func (st *stealer) give(stack []item) []item {
+	st.execs++
+	if st.execs%8 != 0 || len(stack) < 2 {
+		return stack
+	}
+	ents, _ := os.ReadDir(st.dir)
+	for _, e := range ents {
+		var who int
+		if _, err := fmt.Sscanf(e.Name(), "idle.%d", &who); err != nil {
+			continue
+		}
+		claimed := fmt.Sprintf("%s/claimed.%d.%d", st.dir, who, st.shard)
+		if os.Rename(st.dir+"/"+e.Name(), claimed) != nil {
+			continue
+		}
+		half := (len(stack) + 1) / 2
+		b, _ := json.Marshal(stack[:half])
+		tmp := fmt.Sprintf("%s/tmp.%d", st.dir, who)
+		_ = os.WriteFile(tmp, b, 0o644) //nolint:gosec
+		_ = os.Rename(tmp, fmt.Sprintf("%s/work.%d.json", st.dir, who))
+		_ = os.Remove(claimed)
+		st.gives++
+
+		return append([]item{}, stack[half:]...)
+	}
+
+	return stack
+}
+
+// take waits for work; returns nil when every shard is idle.
+func (st *stealer) take() []item {
+	idle := fmt.Sprintf("%s/idle.%d", st.dir, st.shard)
+	work := fmt.Sprintf("%s/work.%d.json", st.dir, st.shard)
+	_ = os.WriteFile(idle, nil, 0o644) //nolint:gosec
+	t0 := time.Now()
+	defer func() { st.waited += time.Since(t0); st.takes++ }()
+	for waited := 0; ; waited++ {
+		if b, err := os.ReadFile(work); err == nil { //nolint:gosec
+			_ = os.Remove(work)
+			var items []item
+			if json.Unmarshal(b, &items) == nil && len(items) > 0 {
+				return items
+			}
+		}
+		ents, _ := os.ReadDir(st.dir)
+		idleN, pending := 0, 0
+		for _, e := range ents {
+			switch {
+			case strings.HasPrefix(e.Name(), "idle.") || strings.HasPrefix(e.Name(), "done."):
+				idleN++
+			default:
+				pending++
+			}
+		}
+		if idleN >= st.nshards && pending == 0 {
+			_ = os.Rename(idle, fmt.Sprintf("%s/done.%d", st.dir, st.shard))
+
+			return nil
+		}
+		if _, err := os.Stat(idle); err != nil {
+			// claimed: work is on its way
+			if _, err2 := os.Stat(fmt.Sprintf("%s/done.%d", st.dir, st.shard)); err2 == nil {
+				return nil
+			}
+		}
+		time.Sleep(20 * time.Millisecond)
+		if waited > 50*600 {
+			return nil
+		}
+	}
 }
 
 // Replay is the artefact for one violating schedule.
@@ -107,31 +207,47 @@ func Explore(t *testing.T, sc *Scenario, r *rep.Report) {
 
 		return
 	}
-	shard, nshards := rep.Shard()
+	shard, _ := rep.Shard()
 	bound := sc.Bound
 	outcomes := map[string]int64{}
 	var schedules, maxSteps int64
-	stack := []item{{shared: true}}
-	splitIdx := 0
-	const splitDepth = 2
+	steal := newStealer(sc.Name, sc.MapDesc)
+	stack := []item{{}}
+	if steal != nil && shard != 0 {
+		stack = nil // everything but the root arrives by work stealing
+	}
 	capped := false
-	for len(stack) > 0 {
+	for {
+		if len(stack) == 0 {
+			if steal == nil {
+				break
+			}
+			if stack = steal.take(); stack == nil {
+				break
+			}
+		}
 		if r.OverBudget("sched " + sc.Name) {
 			capped = true
+			if steal != nil {
+				_ = os.WriteFile(fmt.Sprintf("%s/done.%d", steal.dir, steal.shard), nil, 0o644) //nolint:gosec
+			}
 
 			break
 		}
+		if steal != nil {
+			stack = steal.give(stack)
+		}
 		it := stack[len(stack)-1]
 		stack = stack[:len(stack)-1]
-		rep.Current(map[string]any{"scenario": sc.Name, "choices": it.prefix, "sig_hint": sc.Name})
-		res, bp := runOnce(t, sc, it.prefix, false)
-		counted := !it.shared || shard == 0
+		rep.Current(map[string]any{"scenario": sc.Name, "choices": it.Prefix, "sig_hint": sc.Name})
+		res, bp := runOnce(t, sc, it.Prefix, false)
+		counted := true
 		if counted {
 			schedules++
 		}
 		if res == nil {
 			r.Violate(rep.Violation{Oracle: "harness", Signature: "harness:no-result:" + sc.Name, Detail: bp,
-				Replay: Replay{Engine: "sched", Scenario: sc.Name, MapDesc: sc.MapDesc, Choices: it.prefix}})
+				Replay: Replay{Engine: "sched", Scenario: sc.Name, MapDesc: sc.MapDesc, Choices: it.Prefix}})
 
 			continue
 		}
@@ -140,9 +256,9 @@ func Explore(t *testing.T, sc *Scenario, r *rep.Report) {
 		}
 		// replay determinism: the parent's enabled sets must reappear
 		if res.Diverged == "" {
-			for i := 0; i < len(it.expect) && i < len(res.Steps); i++ {
-				if strings.Join(it.expect[i], "|") != strings.Join(res.Steps[i].Enabled, "|") {
-					res.Diverged = fmt.Sprintf("step %d enabled %v, parent saw %v", i, res.Steps[i].Enabled, it.expect[i])
+			for i := 0; i < len(it.Expect) && i < len(res.Steps); i++ {
+				if strings.Join(it.Expect[i], "|") != strings.Join(res.Steps[i].Enabled, "|") {
+					res.Diverged = fmt.Sprintf("step %d enabled %v, parent saw %v", i, res.Steps[i].Enabled, it.Expect[i])
 
 					break
 				}
@@ -191,12 +307,12 @@ func Explore(t *testing.T, sc *Scenario, r *rep.Report) {
 			}
 		}
 		// children
-		for i := len(res.Steps) - 1; i >= len(it.prefix) && i >= res.BranchFrom; i-- {
+		for i := len(res.Steps) - 1; i >= len(it.Prefix) && i >= res.BranchFrom; i-- {
 			st := res.Steps[i]
 			if len(st.Enabled) < 2 {
 				continue
 			}
-			cost, free := it.cost, it.free
+			cost, free := it.Cost, it.Free
 			if st.RunningEnabled {
 				cost++
 			} else {
@@ -206,23 +322,12 @@ func Explore(t *testing.T, sc *Scenario, r *rep.Report) {
 				continue
 			}
 			for alt := len(st.Enabled) - 1; alt >= 1; alt-- {
-				childShared := false
-				if it.shared {
-					if it.depth+1 < splitDepth {
-						childShared = true
-					} else {
-						splitIdx++
-						if splitIdx%nshards != shard {
-							continue
-						}
-					}
-				}
 				p := append(append([]int{}, choices[:i]...), alt)
 				exp := make([][]string, i+1)
 				for k := 0; k <= i; k++ {
 					exp[k] = res.Steps[k].Enabled
 				}
-				stack = append(stack, item{prefix: p, cost: cost, free: free, expect: exp, depth: it.depth + 1, shared: childShared})
+				stack = append(stack, item{Prefix: p, Cost: cost, Free: free, Expect: exp, Depth: it.Depth + 1})
 			}
 		}
 	}
@@ -237,6 +342,9 @@ func Explore(t *testing.T, sc *Scenario, r *rep.Report) {
 			r.Class(sc.Name + " => " + k)
 		}
 		r.State(sc.Name + " => " + k)
+	}
+	if steal != nil {
+		r.Note("steal stats %s shard %d: takes=%d gives=%d waited=%v", sc.Name, shard, steal.takes, steal.gives, steal.waited)
 	}
 	key := fmt.Sprintf("schedules[%s,mapdesc=%v]", sc.Name, sc.MapDesc)
 	if x, ok := r.Extra[key].(int64); ok {
